@@ -133,3 +133,15 @@ pub fn suite_c19(ctx: &mut Ctx) {
         }
     }
 }
+
+/// a short run of the samplers (C16: sampling must not panic in either profile)
+pub fn suite_c19_lite(ctx: &mut Ctx) {
+    for t in ["p8", "p16", "p32"] {
+        let mut seen = std::collections::HashSet::new();
+        let mut rng = StdRng::seed_from_u64(ctx.seed ^ 0x5eed);
+        for _ in 0..3000 {
+            let out = guarded(|| Some(vec![Val::U(sample_any(t, &mut rng))])).unwrap();
+            emit(ctx, t, "std", &[], out, &mut seen);
+        }
+    }
+}
